@@ -3,6 +3,8 @@ import CM.Proofs.InlCoverScan
 import CM.Proofs.InlCoverExamples
 import CM.Proofs.ParseScanLkCoverRewrite
 import CM.Proofs.ParseAsmCoverEx
+import CM.Proofs.ParseAsmScanCovMain
+import CM.Proofs.ParseAsmScanCovStrip2
 /-
 C03, inline half - "nothing lost": every letter, digit and non-ASCII byte of the unparsed runs handed to Rewrite is covered by a
 leaf of the result (20 proof files `InlCover*`: a fourth spec chain carrying the span invariant and a coverage frontier together;
@@ -46,5 +48,15 @@ theorem rewrite_cover_E : type_of% @CM.Proofs.PSc.rewriteE_cover_E := @CM.Proofs
 theorem blockphase_contsCovE : type_of% @CM.Proofs.PSc.blockphase_contsCovE := @CM.Proofs.PSc.blockphase_contsCovE
 /-- The scanner coverage facts hold trivially for sources without `<`, a backtick, `(` and `[` (used for the non-vacuity instance). -/
 theorem scanCovE_of_plain : type_of% @CM.Proofs.PSc.scanCovE_of_plain := @CM.Proofs.PSc.scanCovE_of_plain
+
+/-- Towards the scanner coverage facts (7 files `ParseAsmScanCov*`): the code-span scanner's coverage field for every container of a
+    block-phase tree, given the strip step's specification `StripCov`; its mathematical content (`strip_keeps_coverage`: the two
+    surgeries of `stripCodeSpanSpace` never drop a piece covering a needed byte - only a space, or an Indent piece) is proved, the
+    monadic wrapping of it is not; the other three fields are stated as targets. `parse_cover_of_parseTails_of_strip` reduces the
+    hypothesis-free whole-Parse statement to exactly those four open facts. -/
+theorem tokCov_code : type_of% @CM.Proofs.PSc.tokCov_code := @CM.Proofs.PSc.tokCov_code
+theorem strip_keeps_coverage : type_of% @CM.Proofs.PSc.strip_result_cov := @CM.Proofs.PSc.strip_result_cov
+theorem parse_cover_of_parseTails_of_strip : type_of% @CM.Proofs.PSc.parse_cover_of_parseTails_of_strip :=
+  @CM.Proofs.PSc.parse_cover_of_parseTails_of_strip
 
 end CM.Props.C03
